@@ -26,9 +26,9 @@ struct Osc { int shape; float detune; bool sync; static const rtosc::Ports ports
 struct Fx { int kind; float mix; int taps[3]; static const rtosc::Ports ports; Fx() : kind(1), mix(0.25f) { taps[0] = 1; taps[1] = 2; taps[2] = 3; } };
 struct Flat {
     int i_pos, i_neg, i_wide; float f1, f_neg; bool t_off, t_on; int opt; char name[24]; char tag[6];
-    int arr[4]; float farr[3]; bool tarr[3]; bool tmix[4]; bool tmix2[3]; char pc; int slot_level[3]; char text[120]; int big[12]; float fbig[8]; int oarr2[3]; int osc1; int kw2; int oarr[3]; int kw; int oarr3[3];
+    int arr[4]; float farr[3]; bool tarr[3]; bool tmix[4]; bool tmix2[3]; char pc; int slot_level[3]; char text[120]; int big[12]; float fbig[8]; int oarr2[3]; int osc1; int kw2; int oarr[3]; int kw; int oarr3[3]; Fx *aux;   // (aux: an optional component this application never creates)
     Flat() : i_pos(10), i_neg(-5), i_wide(0), f1(0.5f), f_neg(-1.25f), t_off(false), t_on(true), opt(1), pc('@') {
-        strcpy(name, "init"); strcpy(tag, ""); oarr2[0] = oarr2[1] = oarr2[2] = 0; osc1 = 0; kw2 = 0; int a[4] = {1, 2, 3, 4}; memcpy(arr, a, sizeof a); farr[0] = farr[1] = farr[2] = 0; tarr[0] = tarr[1] = tarr[2] = false; tmix[0] = true; tmix[1] = tmix[2] = tmix[3] = false; tmix2[0] = false; tmix2[1] = tmix2[2] = true; slot_level[0] = slot_level[1] = slot_level[2] = 0; strcpy(text, ""); for (int q = 0; q < 12; q++) big[q] = 0; for (int q = 0; q < 8; q++) fbig[q] = 1.0f; oarr[0] = oarr[1] = oarr[2] = 0; kw = 0; oarr3[0] = oarr3[1] = oarr3[2] = 0; }
+        strcpy(name, "init"); strcpy(tag, ""); oarr2[0] = oarr2[1] = oarr2[2] = 0; osc1 = 0; kw2 = 0; int a[4] = {1, 2, 3, 4}; memcpy(arr, a, sizeof a); farr[0] = farr[1] = farr[2] = 0; tarr[0] = tarr[1] = tarr[2] = false; tmix[0] = true; tmix[1] = tmix[2] = tmix[3] = false; tmix2[0] = false; tmix2[1] = tmix2[2] = true; slot_level[0] = slot_level[1] = slot_level[2] = 0; strcpy(text, ""); for (int q = 0; q < 12; q++) big[q] = 0; for (int q = 0; q < 8; q++) fbig[q] = 1.0f; oarr[0] = oarr[1] = oarr[2] = 0; kw = 0; oarr3[0] = oarr3[1] = oarr3[2] = 0; aux = nullptr; }
     static const rtosc::Ports ports;
 };
 // ------------------------------------------------------------------ application 2: presets, enabled-by, sub-trees
@@ -122,6 +122,7 @@ inline const rtosc::Ports Flat::ports = {
     rOption(osc1, rOptionsBound(lp, hp, bp), rDefault(lp), "scalar option with the same range"),
     rOption(kw2, rOptions(later, now, immediately, inf, nil, MIDI, BLOB, true, false), rLinear(0, 8), rDefault(later), "option whose symbols are words of the text format"),
     rArrayOption(oarr3, 3, rOptions(saw, nil, square, now), rLinear(0, 3), rDefault([saw saw saw]), "option array one of whose symbols is a word of the text format (the array is then saved by number, all elements alike)"),
+    rRecurp(aux, "pointer sub-tree without an enabling toggle; the pointer is null, so nothing below it exists"),
     {"slot#3/level::i", rProp(parameter) rMap(min, 0) rMap(max, 100) rDefault([3x0]) rDoc("enumeration in the middle of a leaf name"), NULL,
         [](const char *m, rtosc::RtData &d) { Flat *o = (Flat *)d.obj; const char *mm = m; while (*mm && !isdigit(*mm)) ++mm; unsigned idx = atoi(mm); if (idx >= 3) return;
             if (*rtosc_argument_string(m)) { int v = rtosc_argument(m, 0).i; o->slot_level[idx] = v < 0 ? 0 : v > 100 ? 100 : v; d.broadcast(d.loc, "i", o->slot_level[idx]); } else d.reply(d.loc, "i", o->slot_level[idx]); }},
